@@ -2,21 +2,28 @@
 (* Bounded exhaustive exploration of the buffer life-cycle: every history of problems of varying   *)
 (* sizes on one solver; at every estimate the set of minimisers read from the buffers equals the    *)
 (* set of minimisers of the rows filled for the current problem (a fresh solver's answer).           *)
-EXTENDS LsqBuffers, TLC
+EXTENDS LsqBuffers, TLC, Json
 CONSTANTS Ests, MaxData, Vals, Xs, MaxOps
-VARIABLES ops, lastX
-mcvars == <<lsvars, ops, lastX>>
+VARIABLES ops, lastX, hist         \* hist: ghost path (hidden by the VIEW) replayed on the real solver
+mcvars == <<lsvars, ops, lastX, hist>>
+View == <<lsvars, ops, lastX>>
 Rows == IF est = 1 THEN {<<v>> : v \in Vals} ELSE {<<u, v>> : u \in Vals, v \in Vals}
 XSet == IF est = 1 THEN {<<v>> : v \in Xs} ELSE {<<u, v>> : u \in Xs, v \in Xs}
-Init == (\E e \in Ests : LsInitWith(e)) /\ ops = 0 /\ lastX = <<>>
+Init == (\E e \in Ests : LsInitWith(e)) /\ ops = 0 /\ lastX = <<>> /\ hist = <<>>
 Op == ops < MaxOps /\ ops' = ops + 1
-DoSetData == Op /\ (\E n \in 1..MaxData : SetDataSize(n)) /\ lastX' = <<>>
-DoFill == Op /\ (\E i \in 1..dsz, r \in Rows, y \in Vals : Fill(i, r, y)) /\ lastX' = <<>>
-DoSetW == Op /\ (\E i \in 1..dsz, w \in {2} : SetW(i, w)) /\ lastX' = <<>>
-DoEstimate == Op /\ (\E x \in XSet : Estimate(x) /\ lastX' = x)
-DoWeighted == Op /\ (\E x \in XSet : WeightedEstimate(x) /\ lastX' = x)
+DoSetData == Op /\ (\E n \in 1..MaxData : SetDataSize(n) /\ hist' = Append(hist, [o |-> "D", n |-> n])) /\ lastX' = <<>>
+DoFill == Op /\ (\E i \in 1..dsz, r \in Rows, y \in Vals : Fill(i, r, y) /\ hist' = Append(hist, [o |-> "F", i |-> i, j |-> r, y |-> y])) /\ lastX' = <<>>
+DoSetW == Op /\ (\E i \in 1..dsz, w \in {2} : SetW(i, w) /\ hist' = Append(hist, [o |-> "W", i |-> i, w |-> w])) /\ lastX' = <<>>
+\* C07 is stated for full-rank design matrices: det(J^T J) # 0 over the live rows (estimate sizes 1..2 here)
+G(i, k) == SumF([r \in Live |-> J[r][i] * J[r][k]], dsz)
+FullRank == AllLiveFilled /\ dsz >= est /\ (IF est = 1 THEN G(1, 1) # 0 ELSE G(1, 1) * G(2, 2) - G(1, 2) * G(1, 2) # 0)
+DoEstimate == Op /\ FullRank /\ (\E x \in XSet : Estimate(x) /\ lastX' = x) /\ hist' = Append(hist, [o |-> "E"])
+DoWeighted == Op /\ FullRank /\ (\E x \in XSet : WeightedEstimate(x) /\ lastX' = x) /\ hist' = Append(hist, [o |-> "WE"])
 Next == DoSetData \/ DoFill \/ DoSetW \/ DoEstimate \/ DoWeighted
 Spec == Init /\ [][Next]_mcvars
+\* Gen: states right after an estimate (the estimates are what the replay observes); the path carries no answer - the real
+\* solver's answer is validated by Trace_LsqBuffers
+EmitState == (lastX # <<>>) => PrintT(ToJson([est |-> est, path |-> hist]))
 \* fresh-solver oracle: minimisers of the ghost problem `cur` (rows filled for the current problem)
 CurFilled == \A i \in 1..dsz : cur[i] # Unset
 FreshNormal(z) == \A k \in 1..est : SumF([i \in 1..dsz |-> cur[i][1][k] * (Dot(cur[i][1], z) - cur[i][2])], dsz) = 0
